@@ -12,6 +12,8 @@
     * `setDateRule_add_comm`  : registering a rule and setting the date rule commute
     * `setDateRule_idem`      : setting the same patterns twice is setting them once
     * `setDateRule_frame`     : units, rates, separators, currencies, bridges, zone are untouched
+    * `deleteRule_keeps_internal`, `addRule_keeps_internal` : whatever name `delete_rule` is given — also the name of a built-in rule
+      function — and whatever is registered, the INTERNAL rules of every language stay the same list (seeds C10-10, C18-10)
   Tie: the histories of the C18 check interleave `set_date_rule` (the configured patterns of the language) with the
   registrations, on the implementation and on the model (driver op `date_rule_text`, patterns tokenised by the model).
 -/
@@ -142,5 +144,54 @@ theorem setDateRule_frame (c : Cfg F) (lang : String) (pats : List (List (TokInf
     (setDateRule c lang pats).bridges = c.bridges ∧ (setDateRule c lang pats).tz = c.tz := by
   simp only [setDateRule]
   cases c.lang? lang <;> simp [Cfg.setLang]
+
+/-! ### built-in rules are out of reach of the registration API -/
+
+theorem removeFirst_internal (name : String) (rs : List (Rule F)) :
+    (removeFirst (·.isApiNamed name) rs).filter (fun r => !isApi r) = rs.filter (fun r => !isApi r) := by
+  induction rs with
+  | nil => rfl
+  | cons r rs ih =>
+    simp only [removeFirst]
+    split
+    · rename_i h
+      have : isApi r = true := named_api r name h
+      simp [this]
+    · simp only [List.filter_cons, ih]
+
+/-- BUILT-IN RULES ARE OUT OF REACH OF `delete_rule`: whatever name is given — also the name of a built-in rule function —
+    the internal rules of every language are the same list afterwards (seeds C10-10, C18-10 removed `as_duration`, `convert_money`) -/
+theorem deleteRule_keeps_internal (c : Cfg F) (lang name L : String) :
+    (((deleteRule c lang name).1).lang? L).map (fun l => l.rules.filter (fun r => !isApi r)) =
+      (c.lang? L).map (fun l => l.rules.filter (fun r => !isApi r)) := by
+  have h := step_rules c (.del lang name) L
+  simp only [stepCfg] at h
+  have h' := congrArg (Option.map (List.filter (fun r : Rule F => !isApi r))) h
+  simp only [Option.map_map] at h'
+  rw [show (fun l : Lang F => l.rules.filter (fun r => !isApi r)) = (List.filter (fun r : Rule F => !isApi r) ∘ fun l : Lang F => l.rules) from rfl, h']
+  cases c.lang? L with
+  | none => rfl
+  | some l =>
+    simp only [Option.map_some, Function.comp, SCP.C18.applyOp]
+    by_cases hL : lang = L
+    · subst hL; simp only [if_true, removeFirst_internal]
+    · simp only [hL, if_false]
+
+/-- … and of `add_rule`: a registration appends an API rule, the internal rules stay as they are -/
+theorem addRule_keeps_internal (c : Cfg F) (lang L : String) (r : Rule F) (hr : isApi r = true) :
+    (((addRule c lang r).1).lang? L).map (fun l => l.rules.filter (fun r => !isApi r)) =
+      (c.lang? L).map (fun l => l.rules.filter (fun r => !isApi r)) := by
+  have h := step_rules c (.add lang r) L
+  simp only [stepCfg] at h
+  have h' := congrArg (Option.map (List.filter (fun r : Rule F => !isApi r))) h
+  simp only [Option.map_map] at h'
+  rw [show (fun l : Lang F => l.rules.filter (fun r => !isApi r)) = (List.filter (fun r : Rule F => !isApi r) ∘ fun l : Lang F => l.rules) from rfl, h']
+  cases c.lang? L with
+  | none => rfl
+  | some l =>
+    simp only [Option.map_some, Function.comp, SCP.C18.applyOp]
+    by_cases hL : lang = L
+    · simp [hL, List.filter_append, hr]
+    · simp only [hL, if_false]
 
 end SCP.C18Date
